@@ -40,6 +40,12 @@
 #else
 #define LL_PTR_CMP(a, b, op) ((uintptr_t)(a) op (uintptr_t)(b))
 #endif
+#ifdef __CPROVER__
+#define LL_PTR_DIFF(a, b) ((__CPROVER_POINTER_OBJECT((const void *)(a)) == __CPROVER_POINTER_OBJECT((const void *)(b))) \
+    ? (uint64_t)(LL_PTR_OFF(a) - LL_PTR_OFF(b)) : ((uint64_t)(uintptr_t)(a) - (uint64_t)(uintptr_t)(b)))
+#else
+#define LL_PTR_DIFF(a, b) ((uint64_t)(uintptr_t)(a) - (uint64_t)(uintptr_t)(b))
+#endif
 #define LL_PTR_LT(a, b) LL_PTR_CMP(a, b, <)
 #define LL_PTR_LE(a, b) LL_PTR_CMP(a, b, <=)
 #define LL_PTR_GT(a, b) LL_PTR_CMP(a, b, >)
@@ -47,7 +53,13 @@
 
 #define LL_malloc malloc
 #define LL_calloc calloc
+#if defined(__CPROVER__) && defined(LL_REALLOC_UNREACHABLE)
+/* harnesses whose containers are pre-sized: growing is outside the bound (reported like an unwinding assertion, never silently cut) */
+static void *ll_realloc_unreachable(void *p, size_t n) { (void)p; (void)n; __CPROVER_assert(0, "unwinding assertion: realloc reached (container grew beyond the harness capacity)"); __CPROVER_assume(0); return (void *)0; }
+#define LL_realloc ll_realloc_unreachable
+#else
 #define LL_realloc realloc
+#endif
 #define LL_free free
 #define LL_memcpy memcpy
 #define LL_memmove memmove
@@ -91,5 +103,13 @@ static inline uint64_t ll_bswap64(uint64_t x) { return ((uint64_t)ll_bswap32((ui
 static inline uint64_t ll_popcount64(uint64_t x) { uint64_t c = 0; for (int i = 0; i < 64; ++i) c += (x >> i) & 1; return c; }
 static inline uint64_t ll_ctlz(uint64_t x, unsigned w) { uint64_t c = 0; for (int i = (int)w - 1; i >= 0 && !((x >> i) & 1); --i) ++c; return c; }
 static inline uint64_t ll_cttz(uint64_t x, unsigned w) { uint64_t c = 0; for (unsigned i = 0; i < w && !((x >> i) & 1); ++i) ++c; return c; }
+
+/* element-wise memmove for arrays of one struct type (see ll2c) */
+#define LL_TYPED_MOVE(T, d, s, n) do { \
+    T *d_ = (T *)(d); const T *s_ = (const T *)(s); size_t n_ = (n), k_ = n_ / sizeof(T); \
+    if (n_ % sizeof(T) != 0) memmove((void *)d_, (const void *)s_, n_); \
+    else if (LL_PTR_LE(d_, s_)) { for (size_t i_ = 0; i_ < k_; ++i_) d_[i_] = s_[i_]; } \
+    else { for (size_t i_ = k_; i_ > 0; --i_) d_[i_ - 1] = s_[i_ - 1]; } \
+  } while (0)
 
 #define FROZEN_CHECK(p) ll_frozen_check((uint8_t *)(p))
